@@ -257,7 +257,7 @@ macro_rules! escape_bytes_harness {
     };
 }
 
-// @verif-block props=C02 tier=quick cap=900 group=core doc=write_escaped(out,Html,v)_for_a_value_of_kind_bytes_holding_ANY_ASCII_byte,_alone_or_behind_a_byte_that_is_not_valid_UTF-8:_no_raw_<>"'_reaches_the_sink_(byte_strings_are_user_data_like_any_other_string)
+// @verif-block props=C02 tier=experimental cap=900 group=core doc=write_escaped(out,Html,v)_for_a_value_of_kind_bytes_holding_ANY_ASCII_byte,_alone_or_behind_a_byte_that_is_not_valid_UTF-8:_no_raw_<>"'_reaches_the_sink_(byte_strings_are_user_data_like_any_other_string)
 escape_bytes_harness!(c02_escape_bytes_valid_utf8, false);
 escape_bytes_harness!(c02_escape_bytes_invalid_utf8, true);
 // @verif-end
